@@ -1,5 +1,6 @@
 import Gaftools.Props.C03
 import Gaftools.Props.TieA
+import Gaftools.Props.Glue
 #print axioms Gaftools.C03.recNodes_iff
 #print axioms Gaftools.C03.index_exact
 #print axioms Gaftools.C03.specIndex_model
@@ -9,3 +10,5 @@ import Gaftools.Props.TieA
 #print axioms Gaftools.C03.selected_eq_overlaps
 #print axioms Gaftools.C03.refOf_sortedDisjoint
 #print axioms Gaftools.TieA.isStable_gen_eq_model
+#print axioms Gaftools.Glue.infos_readGraph
+#print axioms Gaftools.Glue.reference_eq
